@@ -525,6 +525,42 @@ def run_vlookup(keys, ctx, only=None):
         batch.run(rec, {'family': 'vlookup', 'keys': list(keys)})
 
 
+# ---------------------------------------------------------------- close keys
+# keys that agree in their first nine or ten digits are different keys
+CLOSE_TABLES = (
+    (1234567890, 1234567891, 1234567892, 1234567894),
+    (1000.000001, 1000.0000015, 1000.000002, 1000.000003),
+    (0.1234567891, 0.1234567892, 0.1234567894, 0.5),
+)
+CLOSE_ABSENT = (1234567893, 1234567889, 1000.0000012, 0.1234567893, 1e-12)
+
+
+def run_close(ctx, only=None):
+    rec = Rec(ctx, only)
+    for ti, keys in enumerate(CLOSE_TABLES):
+        n = len(keys)
+        table = [[k, 'row%d' % (i + 1)] for i, k in enumerate(keys)]
+        cells = {}
+        for r, row in enumerate(table):
+            for c, v in enumerate(row):
+                cells['Sheet1!%s%d' % ('AB'[c], r + 1)] = v
+        batch = Batch(cells)
+        for k in keys + CLOSE_ABSENT:
+            tags = {'key:number', 'keys:close',
+                    'key:present' if k in keys else 'key:absent'}
+            batch.add('C15/close/%d/MATCH0/key=%r' % (ti, k),
+                      '=MATCH(%s,%s,0)' % (lit(k), rng('A', n)),
+                      tags | {'fn:MATCH', 'match:exact'},
+                      ref.match_exact(list(keys), k), True)
+            batch.add('C15/close/%d/VLOOKUP/key=%r' % (ti, k),
+                      '=VLOOKUP(%s,%s,2,FALSE)' % (lit(k), rng('A', n, 'B')),
+                      tags | {'fn:VLOOKUP'}, ref.vlookup(table, k, 2), True)
+            batch.add('C15/close/%d/COUNTIF/key=%r' % (ti, k),
+                      '=COUNTIF(%s,%s)' % (rng('A', n), lit(k)),
+                      tags | {'fn:COUNTIF'}, ref.countif(list(keys), k), True)
+        batch.run(rec, {'family': 'close'})
+
+
 # ---------------------------------------------------------------- family E
 def run_choose(ctx, only=None):
     rec = Rec(ctx, only)
@@ -619,6 +655,7 @@ def plan(tier):
             shards.append({'fam': 'vlookup', 'n': n, 'lo': lo,
                            'hi': min(total, lo + 8)})
     shards.append({'fam': 'choose'})
+    shards.append({'fam': 'close'})
     return shards
 
 
@@ -668,6 +705,8 @@ def run_shard(shard, ctx):
         if shard['lo'] == 0 and shard['n'] == 3:
             ctx.sample({'vlookup_keys': list(word(VL_KEYS, 3, 7)),
                         'formula': '=VLOOKUP("a",A1:C3,3,FALSE)'})
+    elif fam == 'close':
+        run_close(ctx)
     elif fam == 'choose':
         run_choose(ctx)
     else:
@@ -694,6 +733,8 @@ def replay(inputs, ctx):
         run_approx(tuple(inputs['values']), ctx, only)
     elif fam == 'vlookup':
         run_vlookup(tuple(inputs['keys']), ctx, only)
+    elif fam == 'close':
+        run_close(ctx, only)
     elif fam == 'choose':
         run_choose(ctx, only)
     else:
